@@ -265,6 +265,13 @@ func (x *Exec) inline(s *State, f *ssa.Function, args []Val, bindings []Val, k c
 func (x *Exec) paramNames(f *ssa.Function, fc *FuncContract) []string {
 	var names []string
 	if len(f.Params) > 0 {
+		if fc != nil && !fc.Extern && len(fc.Params) == len(f.Params) {
+			// the contract names its parameters positionally
+			for _, p := range fc.Params {
+				names = append(names, p.Name)
+			}
+			return names
+		}
 		for _, p := range f.Params {
 			names = append(names, p.Name())
 		}
